@@ -15,7 +15,7 @@ variable {α : Type} [AddCommGroup α] [LinearOrder α] [IsOrderedAddMonoid α]
 
 /-- evidence, fixed at decision time `e0`, that start `s` can be dropped for every end `≥ e0 + m` -/
 def GoodC (PS : Nat → Nat → α) (K : α) (m : Nat) (opt : Nat → α) (s e0 : Nat) : Prop :=
-  s + m ≤ e0 ∧ opt s + PS s e0 + K < opt e0
+  s + m ≤ e0 ∧ opt s + PS s e0 + K ≤ opt e0
 
 structure CInv (PS : Nat → Nat → α) (PP : Nat → α) (K : α) (m M delay t : Nat) (st : CapaSt α) : Prop where
   opt0 : st.opt 0 = 0
@@ -88,7 +88,7 @@ theorem ccover_ge (PS : Nat → Nat → α) (PP : Nat → α) (K : α) (m M dela
         simp only [hme, if_true] at hs'mem
         refine ⟨s', hs'mem, le_trans ?_ hs'le⟩
         have hH := H s e0 (t + 1) hse0 he0m h2 htn
-        have := le_of_lt hlt
+        have := hlt
         grind
 
 end Skc
@@ -97,25 +97,29 @@ namespace Skc
 set_option linter.unusedSectionVars false
 variable {α : Type} [AddCommGroup α] [LinearOrder α] [IsOrderedAddMonoid α]
 
-theorem cinv_step (PS : Nat → Nat → α) (PP : Nat → α) (K : α) (m M delay t n : Nat) (st : CapaSt α)
+theorem cinv_step (pick : (Nat → α) → List Nat → Nat) (pr : α → α → Bool)
+    (hpick_mem : ∀ (f : Nat → α) (l : List Nat), l ≠ [] → pick f l ∈ l)
+    (hpick_ge : ∀ (f : Nat → α) (l : List Nat), ∀ x ∈ l, f x ≤ f (pick f l))
+    (hpr : ∀ x v, pr x v = true → x ≤ v)
+    (PS : Nat → Nat → α) (PP : Nat → α) (K : α) (m M delay t n : Nat) (st : CapaSt α)
     (hm : 1 ≤ m) (hmM : m ≤ M) (hd : m ≤ delay + 1) (htn : t + 1 ≤ n)
     (H : ∀ s e0 T, s + m ≤ e0 → e0 + m ≤ T → T ≤ s + M → T ≤ n → PS s T ≤ PS s e0 + PS e0 T + K)
     (inv : CInv PS PP K m M delay t st) :
-    CInv PS PP K m M delay (t + 1) (capaStep PS PP K m M delay st t) := by
+    CInv PS PP K m M delay (t + 1) (capaStep pick pr PS PP K m M delay st t) := by
   set e := t + 1 with he
   set starts := (if m ≤ e then st.starts ++ [e - m] else st.starts) with hstarts
   set cand : Nat → α := fun s => st.opt s + PS s e with hcand
-  set best := argmaxL cand starts with hbest
+  set best := pick cand starts with hbest
   set vNone := st.opt t with hvNone
   set vPoint := st.opt t + PP t with hvPoint
   set collWins : Prop := starts ≠ [] ∧ vNone < cand best ∧ ¬ (cand best < vPoint) with hcollWins
   set v := (if collWins then cand best else if vNone < vPoint then vPoint else vNone) with hv
   set a : Option Nat := (if collWins then some best else if vNone < vPoint then some t else none) with ha
-  set prune := starts.filter (fun s => cand s + K < v) with hprune
+  set prune := starts.filter (fun s => pr (cand s + K) v) with hprune
   set pending := st.pending ++ [prune] with hpending
   set now := (if pending.length > delay then pending.headD [] else []) with hnow
   set pending' := (if pending.length > delay then pending.tail else pending) with hpending'
-  have hst : capaStep PS PP K m M delay st t =
+  have hst : capaStep pick pr PS PP K m M delay st t =
       { opt := upd st.opt e v, astart := upd st.astart t a,
         starts := (starts.filter (fun s => ¬ now.contains s)).filter (fun s => ¬ (s + M ≤ e)),
         pending := pending' } := rfl
@@ -133,7 +137,7 @@ theorem cinv_step (PS : Nat → Nat → α) (PP : Nat → α) (K : α) (m M dela
     · split
       · exact le_refl _
       · rename_i h; exact not_lt.1 h
-  have hbest_ge : ∀ x ∈ starts, cand x ≤ cand best := argmaxL_ge cand starts
+  have hbest_ge : ∀ x ∈ starts, cand x ≤ cand best := hpick_ge cand starts
   have hV3 : ∀ s ∈ starts, cand s ≤ v := by
     intro s hs
     have hne : starts ≠ [] := List.ne_nil_of_mem hs
@@ -169,7 +173,7 @@ theorem cinv_step (PS : Nat → Nat → α) (PP : Nat → α) (K : α) (m M dela
     have hadm := hstarts_adm s hs1
     refine ⟨hadm.1, ?_⟩
     rw [hopt_e, hfrozen s (by omega)]
-    simpa [hcand] using hs2
+    exact hpr _ _ hs2
   refine ⟨?_, ?_, ?_, ?_, ?_, ?_, ?_, ?_, ?_, ?_⟩ <;> dsimp only
   · rw [hfrozen 0 (by omega)]; exact inv.opt0
   · -- starts_adm
@@ -278,7 +282,7 @@ theorem cinv_step (PS : Nat → Nat → α) (PP : Nat → α) (K : α) (m M dela
       rw [hat, hopt_e, hfrozen e' (by omega)]
       by_cases hc : collWins
       · right; right
-        have hbm : best ∈ starts := argmaxL_mem cand starts hc.1
+        have hbm : best ∈ starts := hpick_mem cand starts hc.1
         have hb := hstarts_adm best hbm
         refine ⟨best, by simp [ha, hc], hb, ?_⟩
         rw [hfrozen best (by omega)]
